@@ -4,6 +4,7 @@ use serde_json::Value;
 mod c07;
 mod c08;
 mod c10;
+mod c10_limits;
 mod c14;
 mod c33;
 mod c20;
@@ -34,6 +35,7 @@ fn run_inner(case: &str, args: &Value) -> Option<Outcome> {
         "c07_float" => Some(c07::float_case(args)),
         "c20_policy" => Some(c20_policy::policy(args)),
         "c10_depth" => Some(c10::depth_case(args)),
+        "c10_complexity" => Some(c10_limits::limits(args)),
         "c10_directives" => Some(c10::directives_case(args)),
         "c33_subtype" => Some(c33::subtype(args)),
         "c14_pos" => Some(c14::pos(args)),
@@ -56,6 +58,7 @@ pub fn search(case: &str, seed: u64, open: &[String]) -> Option<SearchResult> {
         "c07_float" => Box::new(c07::float_inputs(seed, open)),
         "c20_policy" => Box::new(c20_policy::inputs(seed)),
         "c10_depth" | "c10_directives" => Box::new(c10::doc_inputs(seed)),
+        "c10_complexity" => Box::new(c10_limits::inputs(seed)),
         "c33_subtype" => Box::new(c33::inputs(seed)),
         "c14_pos" => Box::new(c14::pos_inputs(seed)),
         "c15_quoted" | "c17_escape" => Box::new(strings::string_inputs(seed)),
